@@ -122,6 +122,13 @@ def run(ctx):
         ctx.violation(_minimise(f))
         return
 
+    f = core.run_random(ctx, random_shard, 2000, 20000)
+    if f is not None:
+        ctx.violation(f)
+
+
+def random_shard(st, shard, nshards, payload):
+    from hypothesis import strategies as hs
     # random tier
     @hs.composite
     def digraphs(draw):
@@ -137,7 +144,6 @@ def run(ctx):
         via = draw(hs.sampled_from(['ctor', 'incremental']))
         return {'n': n, 'edges': edges, 'how': how, 'naming': naming, 'via': via}
 
-    st = ctx.stats
 
     def body(inp):
         edges = [tuple(e) for e in inp['edges']]
@@ -148,9 +154,9 @@ def run(ctx):
             st.sample(inp, cls='random-nt-%d' % (inp['n'] // 4))
         return check_scc(inp)
 
-    f = core.run_hypothesis(ctx, digraphs(), body, ctx.pick(400, 6000))
+    f = core.hyp_run(payload['seed'] * 1000 + shard, digraphs(), body, payload['n'])
     if f is not None:
-        ctx.violation(f)
+        st.failure = f
 
 
 def _minimise(f):
